@@ -116,6 +116,13 @@ CheckOp(variant) ==
      IN out' = [op |-> "check", U |-> W, nc |-> nc, variant |-> variant, ok |-> CheckKV(c.p, W, nc)]
   /\ UNCHANGED c
 
+\* one descent at EVERY position of the vector in turn (the first and the last pair included)
+CheckDescent(i) ==
+  /\ out.op = "init" /\ c.kind = "clamped" /\ c.p <= 3 /\ NumCtrl(c.p, c.U) >= c.p + 2 /\ i \in 2..Len(c.U)
+  /\ LET W == [c.U EXCEPT ![i] = RSub(c.U[i - 1], R(1, 64))] IN
+     out' = [op |-> "check", U |-> W, nc |-> NumCtrl(c.p, c.U), variant |-> "descent", pos |-> i, ok |-> CheckKV(c.p, W, NumCtrl(c.p, c.U))]
+  /\ UNCHANGED c
+
 Perms3 == {q \in [1..3 -> 1..3] : {q[1], q[2], q[3]} = {1, 2, 3}}
 Next == \/ c.kind \notin {"util", "spanonly"} /\ \E u \in Params(c.p, c.U, c.kind) : Eval(u)
         \/ c.kind \in {"clamped", "uniform"} /\ \E q \in Perms3 : ASpans(q)
@@ -123,6 +130,7 @@ Next == \/ c.kind \notin {"util", "spanonly"} /\ \E u \in Params(c.p, c.U, c.kin
         \/ c.kind = "util" /\ \E nc \in (c.p + 1)..(c.p + 1 + MaxGenExtra) : \E cl \in BOOLEAN : Generate(nc, cl)
         \/ c.kind = "clamped" /\ \E ab \in Affines : Normalize(ab)
         \/ c.kind = "clamped" /\ \E v \in {"ok", "descent", "short", "long"} : CheckOp(v)
+        \/ c.kind = "clamped" /\ \E i \in 2..Len(c.U) : CheckDescent(i)
 Spec == Init /\ [][Next]_vars
 
 \* ---- identities of the property, on the specification --------------------
